@@ -16,6 +16,17 @@ var xfCode = map[string]string{
 		var r = [];
 		for (e of entities) { r.push(e); r.push(e); }
 		return r; }`,
+	// every entity is built anew in JavaScript (NewEntity) from the one handed in: abstractly the identity
+	"create": `function transform_entities(entities) {
+		var r = [];
+		for (e of entities) {
+			var n = NewEntity();
+			n.ID = e.ID; n.IsDeleted = e.IsDeleted; n.Recorded = e.Recorded;
+			for (k in e.Properties) { n.Properties[k] = e.Properties[k]; }
+			for (k in e.References) { n.References[k] = e.References[k]; }
+			r.push(n);
+		}
+		return r; }`,
 	// in place: the array the hub handed over is changed and returned
 	"pushfirst":   `function transform_entities(entities) { if (entities.length > 0) { entities.push(entities[0]); } return entities; }`,
 	"unshiftlast": `function transform_entities(entities) { if (entities.length > 0) { entities.unshift(entities[entities.length-1]); } return entities; }`,
